@@ -15,6 +15,9 @@ DECODED_KINDS = ['RealFaultAddressInternal', 'RealFaultAddressExternal', 'RealFa
 NESTED_KINDS = DECODED_KINDS + ['RealFaultAddressPurgeable', 'W', 'K', 'U']
 
 
+PID_BASE = [100]
+
+
 def nested_event(kind, i, prot=3, ftype=2, tid=1):
     if kind == 'W':
         return E.ev('MACH_WAIT', 0, (0x10, 0, 0, 0), tid=tid)
@@ -22,7 +25,7 @@ def nested_event(kind, i, prot=3, ftype=2, tid=1):
         return E.ev('MACH_vm_page_release', 0, (1, 2, 3, 4), tid=tid)
     if kind == 'U':
         return E.ev(0xdead0000, 0, (1, 2, 3, 4), tid=tid)
-    return E.ev(kind, 0, (0x7000 + i, (0x99 << 16) | (prot << 8) | ftype, 5, 100 + i), tid=tid)
+    return E.ev(kind, 0, (0x7000 + i, (0x99 << 16) | (prot << 8) | ftype, 5, PID_BASE[0] + i), tid=tid)
 
 
 def run(events):
@@ -36,7 +39,15 @@ def prot_names(prot):
     return sorted(n for n, v in DW.VM_PROT.items() if v and v & prot and n != 'VM_PROT_WANTS_COPY')
 
 
-def judge_vmfault(nested, result, ftype, prot):
+def judge_vmfault(nested, result, ftype, prot, pid_base=100):
+    PID_BASE[0] = pid_base
+    try:
+        return _judge_vmfault(nested, result, ftype, prot, pid_base)
+    finally:
+        PID_BASE[0] = 100
+
+
+def _judge_vmfault(nested, result, ftype, prot, pid_base):
     evs = [E.ev('MACH_vmfault', 1, (0xaaaa, 0xbbbb, 1, 0))]
     for i, k in enumerate(nested):
         evs.append(nested_event(k, i, prot=prot))
@@ -72,7 +83,7 @@ def judge_vmfault(nested, result, ftype, prot):
             cands = [first_i]
         else:
             cands = [i for i, k in real if k in DECODED_KINDS]   # leniency: first record undecoded -> a later decoded one
-        if not any(shown_pid == 100 + i for i in cands) or shown_prot != prot_names(prot):
+        if not any(shown_pid == pid_base + i for i in cands) or shown_prot != prot_names(prot):
             return ('vmfault-pid-or-protection-not-from-first-nested-record', {'text': txt, 'nested': list(nested), 'prot': prot})
     else:
         if result == 0 and first_k in DECODED_KINDS:
@@ -217,7 +228,13 @@ def judge_crossing(kind, shape):
     """an unrelated call on the same thread overlaps the composite window: nested inside it, started inside and ended after it
     (crossing), started before and ended inside. The composite must still be produced from its own window."""
     S, En = E.ev('BSC_getuid', 1, (1, 2, 3, 4)), E.ev('BSC_getuid', 2, (0, 7, 0, 0))
-    if shape == 'started-before':
+    if shape == 'stale-composite-start':
+        # an earlier window of the SAME composite whose END was lost (other START words, its own nested records)
+        stale = {'vmfault': [E.ev('MACH_vmfault', 1, (0xdddd, 0xeeee, 0, 0)), nested_event('RealFaultAddressExternal', 7)],
+                 'launch': [E.ev('DBG_DYLD_TIMING_LAUNCH_EXECUTABLE', 1, (0, 0x9000, 0, 0)), launch_event('a2', 5)],
+                 'sampler': [E.ev('PERF_Event', 1, (9, 3, 0, 0)), E.ev('PERF_STK_UHdr', 0, (1, 4, 0, 0)), E.ev('PERF_STK_UData', 0, (0x70, 0x80, 0x90, 0xa0))]}[kind]
+        evs = stale + COMPOSITES[kind](([], [], []))
+    elif shape == 'started-before':
         evs = [S] + COMPOSITES[kind](([], [En], []))
     else:
         inner = {'nested': ([S], [En], []), 'crossing': ([S], [], [En]), 'crossing-late-start': ([], [S], [En]), 'none': ([], [], [])}[shape]
@@ -226,6 +243,12 @@ def judge_crossing(kind, shape):
         out = run(evs)
         names = {'vmfault': 'MachVmfault', 'launch': 'DyldLaunchExecutable', 'sampler': 'PerfEvent'}
         comp = [t for t in out if type(t).__name__ == names[kind] and t.ktraces[0].func_qualifier == 1]
+        if kind == 'vmfault' and comp and ('addr: 0xbbbb' not in str(comp[0])):
+            return ('composite-content-wrong-with-overlapping-call', {'text': str(comp[0])})
+        if kind == 'launch' and comp and comp[0].main_executable_mh != 0x4000:
+            return ('composite-content-wrong-with-overlapping-call', {'text': str(comp[0])})
+        if kind == 'sampler' and comp and comp[0].actionid != 7:
+            return ('composite-content-wrong-with-overlapping-call', {'text': str(comp[0])})
         if len(comp) != 1:
             return ('composite-not-produced-with-overlapping-call', {'kind': kind, 'shape': shape, 'n': len(comp), 'traces': [type(t).__name__ for t in out]})
         t = comp[0]
@@ -246,13 +269,13 @@ class C20(Check):
     level = 'model_checking'
     rule = ('page-fault windows: all nested sequences of <=3 (thorough <=4) over {Internal, External, SharedCache real-fault records, the undecoded '
             'Purgeable kind, unrelated decodable NONE, known-undecoded, unknown} x END result {0,1,5} x END fault type (all 11) with '
-            'one protection byte, plus all 256 protection bytes on a 1-record window; launch windows: all nested sequences of <=4 (thorough <=5) '
+            'one protection byte, plus all 256 protection bytes on a 1-record window with pid 100 and with pid 0; launch windows: all nested sequences of <=4 (thorough <=5) '
             'over {map_a@0x1000, map_a@0x2000 (two distinct), shared_cache_a@0x1800, shared_cache_a@0x2000, map_b, unrelated}; '
             'sampler windows: every subset of flags {TH_INFO, KSTACK, USTACK, other} x all sequences of <=4 (quick) / <=6 '
             '(thorough) over {THD_Data, UHdr, UData, UData, unrelated, other thread\'s UData} without repetition x header frame '
             'count {0,3,4,5,9}; PAIRS of sampler windows one after the other on the same thread and parser (3 x 7 x 4 x 7) - the second '
             'judged on its own window only; each composite with an unrelated call of the same thread nested in it, crossing its end, '
-            'started inside, started before. Oracle transcribed from the statement. states = distinct window shapes; transitions = feeds; '
+            'started inside, started before; each composite preceded by an unfinished window of the same composite. Oracle transcribed from the statement. states = distinct window shapes; transitions = feeds; '
             'non-trivial = window with >=2 nested records.')
     assumptions = ('leniency: first nested real-fault record of the undecoded kind: only "does not raise and omits or uses a later '
                    'decoded record" is demanded; for a failed fault (result != 0) pid/protection may be omitted',
@@ -289,6 +312,11 @@ class C20(Check):
         elif kind == 'vmprot':
             for prot in range(256):
                 for k in DECODED_KINDS:
+                    # the kernel task has pid 0: a nested record with pid 0 (and any protection, 0 included) is a record
+                    bad0 = judge_vmfault((k,), 0, 2, prot, pid_base=0)
+                    acc.case(nontrivial=True, transitions=3, state=h64(('vmprot0', k)), outcome=h64(('prot0', prot)))
+                    if bad0:
+                        acc.violation(bad0[0], {'kind': 'vm', 'nested': [k], 'result': 0, 'ftype': 2, 'prot': prot, 'pid_base': 0}, bad0[1])
                     bad = judge_vmfault((k,), 0, 2, prot)
                     acc.case(nontrivial=True, transitions=3, state=h64(('vmprot', k)), outcome=h64(('prot', prot)))
                     if bad:
@@ -309,7 +337,7 @@ class C20(Check):
                     acc.violation(bad[0], {'kind': 'pair', 'f1': f1, 'i1': list(i1), 'f2': f2, 'i2': list(i2)}, bad[1])
         elif kind == 'crossing':
             for k in COMPOSITES:
-                for shape in ('none', 'nested', 'crossing', 'crossing-late-start', 'started-before'):
+                for shape in ('none', 'nested', 'crossing', 'crossing-late-start', 'started-before', 'stale-composite-start'):
                     bad = judge_crossing(k, shape)
                     acc.case(nontrivial=shape != 'none', transitions=8, state=h64(('cross', k, shape)), outcome=h64(('cross', k, shape)))
                     if bad:
@@ -331,7 +359,7 @@ class C20(Check):
     def replay(self, case):
         k = case['kind']
         if k == 'vm':
-            bad = judge_vmfault(tuple(case['nested']), case['result'], case['ftype'], case['prot'])
+            bad = judge_vmfault(tuple(case['nested']), case['result'], case['ftype'], case['prot'], case.get('pid_base', 100))
         elif k == 'launch':
             bad = judge_launch(tuple(case['nested']))
         elif k == 'pair':
